@@ -657,8 +657,10 @@ func (s *Store[K, V]) sinkWrite(item WriteBufItem[K, V]) {
 	}
 
 	// ignore removed entries, except code NEW
-	// which will reset removed flag
-	if entry.flag.IsRemoved() && item.code != NEW {
+	// which will reset removed flag, and code REMOVE:
+	// the API already took the map slot, so an eviction/expiry of the entry
+	// in between could not notify and the notification is still owed
+	if entry.flag.IsRemoved() && item.code != NEW && item.code != REMOVE {
 		return
 	}
 
